@@ -40,6 +40,15 @@ def _mk_frames():
     fr["DF5zeros"] = F.short_ap(5, 0, 0)
     fr["DF11"] = F.df11(0x406B90, 5, 0)
     fr["DF11alt"] = F.df11(0xAAAAAA, 2, 37)
+    # frames whose last 24 bits are all zero (legal: an AP field reads 000000 when the address equals the parity of the data
+    # bits; a squitter's parity can be 000000) - and one that BEGINS with zero nibbles after the format bits
+    r5 = 0x00516D4 & 0x7FFFFFF
+    fr["DF5tail0"] = F.short_ap(5, r5, R.parity((5 << 27) | r5, 32))
+    d20 = (((20 << 27) | 0x0001838) << 56) | 0x201584F2346820
+    fr["DF20tail0"] = F.long_ap(20, 0x0001838, 0x201584F2346820, R.parity(d20, 88))
+    fr["DF11tail0"] = F.hexn(((((11 << 3) | 5) << 24) | R.solve_low24((11 << 3) | 5, 8, 0)) << 24, 56)
+    pre17 = ((((17 << 3) | 5) << 24) | 0x40621D) << 32 | 0x58C382D6
+    fr["DF17tail0"] = F.hexn(((pre17 << 24) | R.solve_low24(pre17, 64, 0)) << 24, 112)
     # DF17 with a flipped bit must never be returned; DF18 / DF16 / DF0 are distractors (may or may not be reported)
     bad = int(fr["DF17a"], 16) ^ (1 << 40)
     fr["DF17badcrc"] = "%028X" % bad
